@@ -123,9 +123,15 @@ var (
 
 var hosts = []string{"example.com", "social.example.org", "EXAMPLE.com:8443", "xn--bcher-kva.example"}
 
-// IRI returns an absolute URL that no other call of this generator returned.
+// IRI returns an id (an absolute URL, 1 in 24 an opaque IRI) that no other call of this generator returned.
 func (g *G) IRI() ap.IRI {
 	g.nextID++
+	if g.T.Bool(1, 24) {
+		// ids that are not URLs name things in the fediverse too (no host, no path: only their text)
+		n := fmt.Sprint(g.nextID)
+		return ap.IRI([]string{"urn:uuid:6ba7b810-9dad-11d1-80b4-00c04fd4" + n, "did:key:z6MkhaXgBZDvotDkL5257faiztiGiC2QtKLGpbn" + n, "acct:user" + n + "@social.example.org",
+			"tag:social.example.org,2024:objectId=" + n + ":objectType=Status"}[g.T.Draw(4)])
+	}
 	h := hosts[g.T.Draw(len(hosts))]
 	scheme := "https"
 	if g.T.Bool(1, 8) {
